@@ -23,8 +23,8 @@ META = {
 
 @unit("C13", covers=[(ANA, "Analysis._create_xref"), (ANA, "ClassAnalysis.add_method_xref_to"), (ANA, "ClassAnalysis.add_method_xref_from"),
                      (ANA, "MethodAnalysis.add_xref_to"), (ANA, "MethodAnalysis.add_xref_from")],
-      params=[{"target": t} for t in ("internal", "external")], samples=256)
-def invoke_opcodes(U, target):
+      params=[{"target": t, "dims": d} for t in ("internal", "external") for d in (0, 1, 2, 3)], samples=256)
+def invoke_opcodes(U, target, dims):
     """which opcodes create a method xref, and what they record"""
     op = U.int("op", 0, 255)
     tgt = ("LB;", "m1", "()V") if target == "internal" else ("LX;", "ext", "()V")
@@ -34,7 +34,7 @@ def invoke_opcodes(U, target):
     mA = index["LA;"].methods[0]
     # pools: index 0 of every table is a valid entry, so whatever table the opcode selects, the lookup works
     vm.types.append("LB;")
-    vm.methods.append(tgt)
+    vm.methods.append(("[" * dims + tgt[0],) + tgt[1:])      # array receivers of any dimension denote the element class
     vm.strings.append("s1")
     vm.fields.append(("LB;", "f", "I"))
     mA.ins.append((6, X.Ins(op, 0, vm.holder)))
